@@ -31,8 +31,8 @@ package goruntime
 //@   property C07
 //@   maypanic
 //@   raw virtAddr
-//@   requires vmm.mapCalls < 0x10000000000000
-//@   modifies vmm.mapCalls, vmm.mapLogPage, vmm.mapLogFrame, vmm.mapLogFlags, mem, *sysStat
+//@   requires vmm.mapCalls < 0x4000000000000000
+//@   modifies vmm.mapCalls, vmm.mapLogPage, vmm.mapLogFrame, vmm.mapLogFlags, vmm.pageTables, *sysStat
 //@   ensures start: !isnil(p) ==> addrof(p) == roundUp(addrof(virtAddr))
 //@   ensures count: !isnil(p) ==> (vmm.mapCalls - old(vmm.mapCalls))*4096 >= size && (vmm.mapCalls - old(vmm.mapCalls))*4096 - size < 4096
 //@   ensures calls: !isnil(p) ==> forall(k, uintptr, k < vmm.mapCalls - old(vmm.mapCalls) ==> vmm.mapLogPage[old(vmm.mapCalls)+k] == mm.Page(roundUp(addrof(virtAddr)) >> 12) + mm.Page(k) && vmm.mapLogFrame[old(vmm.mapCalls)+k] == vmm.ReservedZeroedFrame && vmm.mapLogFlags[old(vmm.mapCalls)+k] == vmm.FlagPresent|vmm.FlagNoExecute|vmm.FlagCopyOnWrite)
@@ -45,8 +45,8 @@ package goruntime
 //@ func sysAlloc(size uintptr, sysStat *uint64) (p unsafe.Pointer)
 //@   property C07
 //@   requires vmm.wfReserve()
-//@   requires vmm.mapCalls < 0x10000000000000
-//@   modifies vmm.earlyReserveLastUsed, vmm.mapCalls, vmm.mapLogPage, vmm.mapLogFrame, vmm.mapLogFlags, mm.allocState, mem, *sysStat
+//@   requires vmm.mapCalls < 0x4000000000000000
+//@   modifies vmm.earlyReserveLastUsed, vmm.mapCalls, vmm.mapLogPage, vmm.mapLogFrame, vmm.mapLogFlags, vmm.pageTables, mm.allocState, mem, *sysStat
 //@   ensures wf:      vmm.wfReserve()
 //@   ensures region:  !isnil(p) ==> addrof(p)&0xfff == 0 && addrof(p) == vmm.earlyReserveLastUsed && old(vmm.earlyReserveLastUsed) - addrof(p) >= size && old(vmm.earlyReserveLastUsed) - addrof(p) - size < 4096
 //@   ensures count:   !isnil(p) ==> (vmm.mapCalls - old(vmm.mapCalls))*4096 == old(vmm.earlyReserveLastUsed) - addrof(p)
